@@ -9,6 +9,8 @@ mod c02;
 mod c03;
 mod c04;
 mod c05;
+mod c07;
+mod c08;
 mod c10;
 mod c11;
 mod c12;
@@ -224,6 +226,8 @@ fn main() {
         "C03" => c03::run(thorough),
         "C04" => c04::run(thorough),
         "C05" => c05::run(thorough),
+        "C07" => c07::run(thorough),
+        "C08" => c08::run(thorough),
         "C10" => c10::run(thorough),
         "C11" => c11::run(thorough),
         "C16" => c16::run(thorough),
